@@ -369,13 +369,18 @@ def run_case(case):
             except BaseException as ex:  # noqa: BLE001 - the exception class IS the observation
                 box["exc"] = ex
 
-        th = threading.Thread(target=work, daemon=True)
-        th.start()
-        th.join(ENTRY_TIMEOUT_S + 30.0)
-        if th.is_alive():
-            obs["hang"] = True
-            kill_strays(wdirs)
-            th.join(90.0)
+        if os.environ.get("COVERAGE_PROCESS_START"):
+            # coverage measurement (tools/coverage.sh) traces the main thread only: run the entry point here
+            # (the fail_after guards inside still bound it)
+            work()
+        else:
+            th = threading.Thread(target=work, daemon=True)
+            th.start()
+            th.join(ENTRY_TIMEOUT_S + 30.0)
+            if th.is_alive():
+                obs["hang"] = True
+                kill_strays(wdirs)
+                th.join(90.0)
         if "exc" in box:
             obs["raised"] = exc_obs(box["exc"])
         obs["launches"], _ = read_records(wdirs)
@@ -412,3 +417,124 @@ def run_cases(cases):
             return [run_case(c) for c in cases]
         finally:
             gc.collect()  # transports abandoned by run_command complain in __del__; keep that off the terminal
+
+
+# =============================================================================== the command line (suite "cli")
+def _cli_model_path(loc):
+    kind, name = loc.split(":", 1)
+    return name if kind == "cwd" else ("@HOME/" + name if kind == "home" else "@ABS/" + name)
+
+
+def run_cli_case(case):
+    """`python -m chuk_mcp <argv>` (in-process: `__main__.main()`), in a scratch cwd and HOME holding the
+    configuration files of `case["present"]` ({location: document}); locations `cwd:<name>`, `home:<rel>`,
+    `abs:<name>`; argv tokens may contain `@ABS/<name>` (replaced by the real path)."""
+    import chuk_mcp.__main__ as M
+    from chuk_mcp.mcp_client.host.environment import get_default_environment
+
+    obs = {"launches": [], "exit": "none", "raised": None, "default_env": {}}
+    tmp = tempfile.mkdtemp(prefix="verif-c20-")
+    roots = {"cwd": os.path.join(tmp, "cwd"), "home": os.path.join(tmp, "home"), "abs": os.path.join(tmp, "abs")}
+    for d in roots.values():
+        os.makedirs(d)
+    wdirs, paths = {}, {}
+    saved = {"HOME": os.environ.get("HOME"), "argv": sys.argv, "cwd": os.getcwd()}
+    import logging
+    root_logger = logging.getLogger()
+    handlers, level = list(root_logger.handlers), root_logger.level
+    try:
+        for loc, doc in case["present"].items():
+            for i in (placeholders(doc) if isinstance(doc, dict) else []):
+                if i not in wdirs:
+                    d = os.path.join(tmp, f"w{i}")
+                    os.mkdir(d)
+                    p = os.path.join(d, "witness")
+                    with open(p, "w") as f:
+                        f.write(WITNESS % {"py": sys.executable})
+                    os.chmod(p, 0o755)
+                    wdirs[i], paths[i] = d, p
+        for loc, doc in case["present"].items():
+            kind, name = loc.split(":", 1)
+            fp = os.path.join(roots[kind], name)
+            os.makedirs(os.path.dirname(fp), exist_ok=True)
+            with open(fp, "w") as f:
+                if doc is None:
+                    f.write("{ this is not json")
+                else:
+                    json.dump(materialise(doc, paths, wdirs), f)
+        os.environ["HOME"] = roots["home"]
+        os.chdir(roots["cwd"])
+        sys.argv = ["chuk_mcp"] + [a.replace("@ABS", roots["abs"]) for a in case["argv"]]
+        obs["default_env"] = dict(get_default_environment())
+        buf = io.StringIO()
+        try:
+            with contextlib.redirect_stdout(buf):
+                M.main()
+            obs["exit"] = "returned"
+        except SystemExit as ex:
+            obs["exit"] = ex.code if isinstance(ex.code, int) else (0 if ex.code is None else 1)
+        except BaseException as ex:  # noqa: BLE001
+            obs["raised"] = type(ex).__name__
+        obs["launches"], _ = read_records(wdirs)
+        canon = dict(wdirs)
+        for l in obs["launches"]:
+            l["env"] = {k: _sub_dirs(v, canon, back=True).replace(roots["home"], "@HOME") for k, v in l["env"].items()}
+        obs["default_env"] = {k: v.replace(roots["home"], "@HOME") for k, v in canon_env(obs["default_env"], canon).items()}
+    finally:
+        sys.argv = saved["argv"]
+        os.chdir(saved["cwd"])
+        if saved["HOME"] is None:
+            os.environ.pop("HOME", None)
+        else:
+            os.environ["HOME"] = saved["HOME"]
+        for h in list(root_logger.handlers):
+            if h not in handlers:
+                root_logger.removeHandler(h)
+        root_logger.setLevel(level)
+        kill_strays(wdirs)
+        shutil.rmtree(tmp, ignore_errors=True)
+    return obs
+
+
+def run_cli_cases(cases):
+    import gc
+
+    with quiet_fds():
+        try:
+            return [run_cli_case(c) for c in cases]
+        finally:
+            gc.collect()
+
+
+# =============================================================================== the default environment (suite "hostenv")
+def run_hostenv_cases(cases):
+    """the real `get_default_environment()` under generated parent environments; the win32 name list is
+    reached by re-executing the module with `sys.platform` patched (and restoring it afterwards)"""
+    import importlib
+    from unittest import mock
+
+    import chuk_mcp.mcp_client as legacy
+    import chuk_mcp.mcp_client.host.environment as envmod
+
+    out = [None] * len(cases)
+
+    def batch(idx, via_legacy):
+        for i in idx:
+            fn = legacy.get_default_environment if via_legacy(i) else envmod.get_default_environment
+            with mock.patch.dict(os.environ, cases[i]["parent"], clear=True):
+                try:
+                    out[i] = {"env": dict(fn())}
+                except Exception as ex:  # noqa: BLE001
+                    out[i] = {"env": None, "raised": type(ex).__name__}
+
+    posix = [i for i, c in enumerate(cases) if not c.get("win32")]
+    win = [i for i, c in enumerate(cases) if c.get("win32")]
+    batch(posix, lambda i: i % 2 == 1)
+    if win:
+        try:
+            with mock.patch.object(sys, "platform", "win32"):
+                importlib.reload(envmod)
+            batch(win, lambda i: False)
+        finally:
+            importlib.reload(envmod)
+    return out
